@@ -362,6 +362,93 @@ def _world(rng, tier, index, res, tr, ch):
             bt = rjwe.build("compact", {"alg": a2, "enc": "A128GCM"}, pt, [rjwe.Rcpt(a2, k2.public())], erng.sub("nokid%d" % sim.events))
             sim.after(erng.pick([0.01, 5, 600]), lambda: deliver_jwe(bt.ser, k2, pt, None, False), "deliver-jwe")
 
+    def mint_jwe_multi():
+        """general JSON JWE with several kid-less recipients against the fetched public set: each recipient entry must record
+        the kid of the key picked for it and the owner must be able to decrypt"""
+        peer = erng.pick(peers)
+        if peer.jset is None:
+            return
+        cands = [k for k in peer.rkeys if kind_of(k) in JWE_ALG]
+        kinds = sorted({kind_of(k) for k in cands})
+        if len(kinds) < 1 or len(cands) < 2:
+            return
+        n = erng.randrange(2, 4)
+        algs = [erng.pick([a for a in JWE_ALG[erng.pick(kinds)] if a != "ECDH-ES"] or ["ECDH-ES+A128KW"]) for _ in range(n)]   # no direct mode with several recipients
+        pt = ("mm-%d-%d" % (index, sim.events)).encode()
+        o = jwe.GeneralJSONEncryption({"enc": "A128GCM"}, pt)
+        for a in algs:
+            o.add_recipient({"alg": a})
+        ch.force = lambda seq: erng.randrange(len(seq))
+        ch.calls.clear()
+        repro = {"op": "mint-jwe-multi", "algs": algs, "peer_doc": peer.doc}
+        try:
+            tok = jwe.encrypt_json(o, peer.jset, algorithms=ALLJWE)
+        except Exception as e:
+            ch.force = None
+            same_kty_mixed = any(len({kind_of(k) for k in peer.rkeys if k.kty in (["RSA"] if a.startswith("RSA") else ["EC", "OKP"])}) > 1 for a in algs)
+            if same_kty_mixed:
+                res.probe("dontcare:random-pick-unusable-key")
+                return
+            viol("produce-jwe:refused", "encrypting to several kid-less recipients failed: %s: %s" % (type(e).__name__, str(e)[:100]), repro)
+            return
+        ch.force = None
+        res.case(index, sim.events, "mint-jwe-multi")
+        res.fired("multi-recipient-kidless-jwe")
+        kids = []
+        for a, r in zip(algs, tok["recipients"]):
+            kid = (r.get("header") or {}).get("kid")
+            kids.append(kid)
+            key = resolve(peer.rkeys, kid)
+            want_ktys = ["RSA"] if a.startswith("RSA") else ["EC", "OKP"]
+            if kid is None or key is None or key.kty not in want_ktys:
+                viol("produce-jwe:kid-not-recorded", "recipient for %s records kid %r (per-recipient headers %r)" % (
+                    a, kid, [x.get("header") for x in tok["recipients"]]), repro)
+                return
+        if "kid" in json.loads(b64.dec(tok["protected"])) or "kid" in (tok.get("unprotected") or {}):
+            viol("produce-jwe:kid-in-shared-header", "a recipient's kid was written into a header shared by all recipients", repro)
+            return
+        # the owner can decrypt iff it still holds all the named keys
+        tr.add("mint-jwe-multi", algs, kids)
+        current = all(resolve(owner.keys, k) is not None and rk.thumbprint(resolve(owner.keys, k)) == rk.thumbprint(resolve(peer.rkeys, k)) for k in kids)
+        try:
+            obj = jwe.decrypt_json(tok, owner.jset, algorithms=ALLJWE)
+            ok = obj.plaintext == pt
+        except Exception as e:
+            ok = False
+            err = e
+        if current and not ok:
+            viol("consume-jwe:rejected-resolvable", "multi-recipient JWE whose recipient kids all name current keys was not decrypted", dict(repro, token=tok))
+
+    def generated_set():
+        """KeySet.generate_key_set / keys created from one parameters dict: every key its own kid; produce -> consume through the public set"""
+        kty, crv = erng.pick([("EC", "P-256"), ("OKP", "Ed25519"), ("EC", "P-384")])
+        params = erng.pick([None, {"use": "sig"}, {"use": "sig", "alg": JWS_ALG[(kty, crv)][0]}])
+        res.case(index, sim.events, "generated-set")
+        res.fired("generated-key-set")
+        try:
+            gs = KeySet.generate_key_set(kty, crv, copy.deepcopy(params), True, erng.randrange(2, 5))
+        except Exception as e:
+            viol("generate:failed", "%s: %s" % (type(e).__name__, e), {"op": "generated-set"})
+            return
+        kids = [k.kid for k in gs.keys]
+        if len(set(kids)) != len(kids) or any(not k for k in kids):
+            viol("generate:kids-not-unique", "generate_key_set(parameters=%r) produced kids %r" % (params, kids), {"op": "generated-set", "params": params})
+            return
+        pub = KeySet.import_key_set(gs.as_dict(private=False))
+        alg = JWS_ALG[(kty, crv)][0]
+        for forced in range(len(gs.keys)):
+            ch.force = forced
+            try:
+                tok = jws.serialize_compact({"alg": alg}, b"generated", gs, algorithms=ALLJWS)
+                got = jws.deserialize_compact(tok, pub, algorithms=ALLJWS).payload
+            except Exception as e:
+                got = "%s: %s" % (type(e).__name__, e)
+            ch.force = None
+            if got != b"generated":
+                viol("consume-jws:rejected-resolvable", "token signed with key %d of a generated set does not verify against the set's public export: %r" % (forced, got),
+                     {"op": "generated-set", "params": params})
+                return
+
     def foreign_jwks():
         """a JWKS from another implementation: entries carry no kid; import must keep every key and give each a (thumbprint) kid"""
         n = erng.randrange(2, 5)
@@ -511,8 +598,12 @@ def _world(rng, tier, index, res, tr, ch):
             sim.at(sim.now + t, lambda: fetch(erng.pick(peers)), "fetch")
         elif r < 0.47:
             sim.at(sim.now + t, mint_nokid, "mint-nokid")
-        elif r < 0.52:
+        elif r < 0.50:
             sim.at(sim.now + t, foreign_jwks, "foreign-jwks")
+        elif r < 0.53:
+            sim.at(sim.now + t, generated_set, "generated-set")
+        elif r < 0.58:
+            sim.at(sim.now + t, mint_jwe_multi, "mint-jwe-multi")
         elif r < 0.76:
             sim.at(sim.now + t, mint_jws, "mint-jws")
         else:
@@ -585,6 +676,27 @@ def replay(repro: dict):
                     out.append(("consume-jwe:wrong-error-for-unknown-kid", type(exc).__name__))
             elif outcome != "ok":
                 out.append(("consume-jwe:rejected-resolvable", "%s: %s" % (type(exc).__name__, exc)))
+        elif op == "generated-set":
+            for params in (repro.get("params"), {"use": "sig"}):
+                gs = KeySet.generate_key_set("EC", "P-256", copy.deepcopy(params), True, 3)
+                kids = [k.kid for k in gs.keys]
+                if len(set(kids)) != len(kids):
+                    out.append(("generate:kids-not-unique", repr(kids)))
+                    out.append(("consume-jws:rejected-resolvable", "kids collide"))
+        elif op == "mint-jwe-multi":
+            ks = KeySet.import_key_set(copy.deepcopy(repro["peer_doc"]))
+            o = jwe.GeneralJSONEncryption({"enc": "A128GCM"}, b"x")
+            for a in repro["algs"]:
+                o.add_recipient({"alg": a})
+            try:
+                tok = jwe.encrypt_json(o, ks, algorithms=ALLJWE)
+                hs = [r.get("header") or {} for r in tok["recipients"]]
+                if any("kid" not in h for h in hs):
+                    out.append(("produce-jwe:kid-not-recorded", repr(hs)))
+                if "kid" in json.loads(b64.dec(tok["protected"])):
+                    out.append(("produce-jwe:kid-in-shared-header", "kid in protected"))
+            except Exception as e:
+                out.append(("produce-jwe:refused", "%s: %s" % (type(e).__name__, e)))
         elif op == "foreign-jwks":
             doc = repro["doc"]
             n = len(doc["keys"])
